@@ -2791,3 +2791,28 @@ func apiSinkMarshalFaults(rep *Report) {
 		rep.violate("C15", "sink-fault-lost", fmt.Sprintf("a failing sink behind Sink.Marshal: %v; a type mismatch behind Sink.Marshal: %v", err, err2), "Sink.Marshal over a failing sink")
 	}
 }
+
+// a Tree as a pipeline stage source: iterated, edited below the root, iterated again (C13: tree-then-iterate is the identity
+// on what the tree holds NOW)
+func apiTreeIterAfterEdit(rep *Report) {
+	base := []sb.Token{tokK(sb.KindArray), tokI(1), tokK(sb.KindArray), tokI(2), tokI(3), tokK(sb.KindArrayEnd), tokS("s"), tokK(sb.KindArrayEnd)}
+	tr, e := sb.TreeFromStream(tokensFrom(base))
+	if e != nil {
+		return
+	}
+	it1, _ := collect(tr.Iter())
+	tr.Subs[1].Subs[1].Token = &sb.Token{Kind: sb.KindInt, Value: 20}
+	it2, _ := collect(tr.Iter())
+	tr.Subs[1].Subs = append([]*sb.Tree{{Token: &sb.Token{Kind: sb.KindInt, Value: 0}}}, tr.Subs[1].Subs...)
+	it3, _ := collect(tr.Iter())
+	want2 := append([]sb.Token{}, base...)
+	want2[4] = tokI(20)
+	want3 := append(append(append([]sb.Token{}, want2[:3]...), tokI(0)), want2[3:]...)
+	rep.Evaluations += 3
+	rep.count("api:tree-iter-after-edit")
+	if !tokensExactEq(it1, base) || !tokensExactEq(it2, want2) || !tokensExactEq(it3, want3) {
+		what := fmt.Sprintf("iterations of one tree: [%s]; after replacing a leaf [%s] (holds [%s]); after inserting a child [%s] (holds [%s])", descTokens(it1), descTokens(it2), descTokens(want2), descTokens(it3), descTokens(want3))
+		rep.violate("C13", "combinator-not-transparent", what, "tree edited between iterations")
+		rep.violate("C12", "iter-differs", what, "tree edited between iterations")
+	}
+}
